@@ -119,3 +119,20 @@ PROPS["C11"] = {"fn": c11, "level": "other",
     "claim": "Decides structurally that both loops of try_replacen borrow iff there is no match, propagate search errors with `?` before slicing, stop at `limit > 0 && i >= limit`, copy the gap, insert the replacement once and advance last_match to m.end(), append the tail; replace/replace_all/replacen forward (1,0,n); the five string-like Replacer impls share one no_expansion helper testing contains('$'), NoExpand returns Some, closures keep None; every replace_append writes to dst.",
     "note": "The replaced text for concrete inputs is not decided; slices rely on F2's missing ordering guard (reported under C05).",
     "explanation": "Paths of try_replacen are enumerated (loop bodies once); obligations are evaluated per path and per Replacer impl."}
+
+
+import fam_types
+
+
+def c18(run, ctx):
+    fam_types.witness_check(run, ctx, doc_tests=(run.tier == "thorough"))
+    fam_types.scans(run, ctx)
+
+
+PROPS["C18"] = {"fn": c18, "level": "proof",
+    "technique": "type-level witness crate checked by rustc (Send/Sync/Clone, concurrent &self use) + ADT-graph / statics / unsafe scans over the resolved program",
+    "claim": "Proof by the Rust type system: the witness crate compiles against the current tree (Regex, Prog, Insn: Send+Sync+Clone; all search entry points callable concurrently through &Regex and through clones), the crate contains no unsafe, no crate-local type reachable from Regex holds interior mutability, there are no mutable/interior-mutable/thread-local statics, and vm::run builds its state per call. Hence a search cannot write anything reachable from another thread's search and every call computes the same function of (regex, text, pos) as single-threaded; no schedules need exploring.",
+    "note": "Trusted: rustc's Send/Sync checking; regex-automata's meta::Regex being correctly Sync (its cache pool is the one piece of shared mutable state, inside the dependency). Conditions (3)-(6) are sufficient, not necessary: a correctly locked cache added to Regex is reported as 'cannot discharge'.",
+    "explanation": "cargo check of witness/ against /repo discharges the auto-trait and &self obligations; the fact dump is scanned for unsafe, interior mutability reachable from Regex, statics and &mut entry points.",
+    "trusted": ["rustc trait solver and borrow checker", "regex-automata meta::Regex is correctly Send+Sync (internal cache pool)", "std collections contain no hidden shared mutable state"],
+    "assumptions": ["sufficient-condition proof: any interior mutability reachable from Regex is rejected even if correctly synchronised"]}
